@@ -492,6 +492,9 @@ pub fn run(tier: &str) -> i32 {
     rep.assume("duplicates are tolerated while a compaction is in flight; exact equality of the reachable row multiset is required once every cycle has ended");
     let mut seen = BTreeSet::new();
     for (p, bounds) in plans(tier) {
+        if !scenario_selected(&p.name) {
+            continue;
+        }
         let cfg = ExploreConfig { bounds, use_cache: false, wall_cap: Duration::from_secs(if tier == "thorough" { 900 } else { 60 }), max_steps: 600, ..Default::default() };
         let st = explore(factory(p.clone()), &cfg);
         for k in st.flags.keys() {
